@@ -230,9 +230,18 @@ func GenHistory(rng *lib.Rng, p GenParams) *History {
 			nm := copyMap(pm)
 			for j := 0; j < n; j++ {
 				var k []byte
-				if rng.Chance(88) {
+				switch x := rng.Intn(100); {
+				case x < 84:
 					k = []byte(lib.Pick(rng, pkeys))
-				} else {
+				case x < 90: // absent key that is a proper prefix of the smallest / a random present key (or empty)
+					src := pkeys[0]
+					if rng.Bool() {
+						src = lib.Pick(rng, pkeys)
+					}
+					k = []byte(src[:rng.Intn(len(src)+1)])
+				case x < 94: // absent key just after a present key
+					k = append([]byte(lib.Pick(rng, pkeys)), 0x00)
+				default:
 					k = g.newKey() // absent key
 				}
 				b.Del = append(b.Del, k)
